@@ -62,7 +62,9 @@ var c04LitsMatch = []string{
 
 // transform tails for the function family: let chains in and out of definition order
 var c04TransformsFn = []string{"", " |> let Y = fn:plus(X, 1)", " |> let W = fn:plus(X, 1), let Y = fn:plus(X, W)", " |> let Y = fn:plus(X, W), let W = fn:plus(X, 1)",
-	" |> do fn:group_by(X), let Y = fn:count(), let Z = fn:sum(X)", " |> do fn:group_by(X), let Y = fn:sum(W)"}
+	" |> do fn:group_by(X), let Y = fn:count(), let Z = fn:sum(X)", " |> do fn:group_by(X), let Y = fn:sum(W)",
+	// ordinary functions among the statements of a do-transform, in and out of definition order
+	" |> do fn:group_by(X), let Z = fn:count(), let Y = fn:plus(Z, 1)", " |> do fn:group_by(X), let Y = fn:plus(Z, 1), let Z = fn:count()", " |> do fn:group_by(X), let Y = fn:plus(Y, 1)"}
 
 // focused set for 4-literal bodies in the quick tier
 var c04LitsFour = []string{"q(X)", "q(Y)", "r(X,Y)", "!s(X)", "!s(Y)", "!t(X,Y)", "!t(Y,X)", "X != Y", "X = Y"}
@@ -350,6 +352,19 @@ func c04Clause(r *rt.Run, clause string) {
 		r.Add("transitions", 1)
 		if rerr != nil && (errors.Is(rerr, oracle.ErrUnsupported) || errors.Is(rerr, oracle.ErrEvalError)) {
 			r.Add("cases_outside_reference_fragment", 1)
+			if errors.Is(rerr, oracle.ErrUnsupported) {
+				// the reference has no meaning for the clause (e.g. an ordinary function among the statements of a
+				// do-transform): the first half of the property is still decided — an accepted clause evaluates
+				// without panic and without an error that says a variable has no value
+				var everr error
+				pv, st := rt.Try(func() { everr = mg.Eval(pp.pi, mg.NewStoreWithEDB("multiarray", edb)) })
+				r.Add("traces_validated_against_impl", 1)
+				if pv != nil {
+					r.Violate("panic", fmt.Sprintf("%v at %s", pv, rt.ShortStack(st)), w)
+				} else if everr != nil && (strings.Contains(everr.Error(), "not a value") || strings.Contains(everr.Error(), "no value") || strings.Contains(everr.Error(), "not bound")) {
+					r.Violate("eval-error-variable-without-value", "accepted clause failed at evaluation: "+everr.Error(), w)
+				}
+			}
 			continue
 		}
 		if errors.Is(rerr, oracle.ErrUnsafe) {
